@@ -261,13 +261,18 @@ Definition set_word (v : bvec) (off : nat) (val : chunk) : option bvec :=
   set_slice v off (off + 32) val.
 
 (* ByteVec.__setitem__ with a slice key:
-     start = key.start or 0 ; stop = key.stop or self.length
-   Python's `or` takes the default for None AND for 0 *)
+     start = key.start or 0
+     stop = key.stop if key.stop is not None else self.length
+   Python's `or` takes the default for None AND for 0 (harmless for start, whose default
+   is 0); the conditional expression takes the default for None only *)
 Definition py_or (x : option nat) (d : nat) : nat :=
   match x with Some 0 => d | Some n => n | None => d end.
 
+Definition py_if_not_none (x : option nat) (d : nat) : nat :=
+  match x with Some n => n | None => d end.
+
 Definition setitem_slice (v : bvec) (start stop : option nat) (val : chunk) : option bvec :=
-  set_slice v (py_or start 0) (py_or stop (blen v)) val.
+  set_slice v (py_or start 0) (py_if_not_none stop (blen v)) val.
 
 (* a ConcreteChunk (unwrap gives python bytes) *)
 Definition leaf_conc (c : chunk) : bool :=
